@@ -115,19 +115,39 @@ def run(ctx):
               "islice(record_stream(args.src, selector), ...)", key="R16.2:main:slice-source")
     start = norm(c.args[1]) if len(c.args) > 1 else None
     stop = c.args[2] if len(c.args) > 2 else None
+    stop_ok = False
+    shown = norm(stop) if stop is not None else None
+
+    def is_sum(e):
+        return isinstance(e, ast.BinOp) and isinstance(e.op, ast.Add) and {norm(e.left), norm(e.right)} == {"args.count", "args.skip"}
+
+    def is_none(e):
+        return isinstance(e, ast.Constant) and e.value is None
+
     if isinstance(stop, ast.Name):
         stop_name = stop.id
-        for st in walk_no_nested(main):
-            if isinstance(st, ast.Assign) and norm(st.targets[0]) == stop_name:
-                stop = st.value
-    stop_ok = isinstance(stop, ast.IfExp) and norm(stop.test) == "args.count" and isinstance(stop.orelse, ast.Constant) and stop.orelse.value is None and \
-        isinstance(stop.body, ast.BinOp) and isinstance(stop.body.op, ast.Add) and {norm(stop.body.left), norm(stop.body.right)} == {"args.count", "args.skip"}
-    ctx.check(start == "args.skip" and stop_ok, "R16.2", "main:islice:bounds", f"slice bounds are ({start}, {norm(stop) if stop is not None else None}); expected (skip, skip+count or None)", c,
+        defs = [st for st in walk_no_nested(main) if isinstance(st, ast.Assign) and norm(st.targets[0]) == stop_name]
+        if len(defs) == 1:
+            stop = defs[0].value
+            shown = norm(stop)
+        elif len(defs) == 2:
+            conds = [enclosing_conditions(d, main) for d in defs]
+            by = {}
+            for d, cs in zip(defs, conds):
+                if cs and cs[-1][0] == "args.count":
+                    by[cs[-1][1]] = d.value
+            stop_ok = set(by) == {True, False} and is_sum(by[True]) and is_none(by[False])
+            shown = f"{norm(by.get(True)) if True in by else '?'} if args.count else {norm(by.get(False)) if False in by else '?'}"
+    if isinstance(stop, ast.IfExp):
+        stop_ok = norm(stop.test) == "args.count" and is_none(stop.orelse) and is_sum(stop.body)
+    ctx.check(start == "args.skip" and stop_ok, "R16.2", "main:islice:bounds", f"slice bounds are ({start}, {shown}); expected (skip, skip+count or None)", c,
               "islice(..., args.skip, args.count + args.skip if args.count else None)", key="R16.2:main:slice-bounds")
     sel = [st for st in walk_no_nested(main) if isinstance(st, ast.Assign) and norm(st.targets[0]) == "selector"]
     ctx.check(len(sel) == 1 and "make_selector(args.selector" in norm(sel[0].value) and "not args.no_compile" in norm(sel[0].value), "R16.2", "main:selector",
               "the selector is not make_selector(args.selector, not args.no_compile)", main, "selector from -s, compiled unless -n")
-    rloop = next((n for n in ast.walk(main) if isinstance(n, ast.For) and "record_iterator" in norm(n.iter)), None)
+    it_var = norm(c._parent.targets[0]) if isinstance(getattr(c, "_parent", None), ast.Assign) else None
+    rloop = next((n for n in ast.walk(main) if isinstance(n, ast.For) and (c in list(ast.walk(n.iter)) or (
+        it_var is not None and any(isinstance(x, ast.Name) and x.id == it_var for x in ast.walk(n.iter))))), None)
     if rloop is None:
         raise AnalysisError("R16.2: record loop not found in main")
     jumps = [n for n in ast.walk(rloop) if isinstance(n, (ast.Continue, ast.Break, ast.Return)) and not _in_nested_loop(n, rloop)]
@@ -189,8 +209,10 @@ def run(ctx):
         ok = isinstance(arg, ast.Call) and (call_name(arg) or "").endswith("ChainMap") and len(arg.args) == 2 and norm(arg.args[1]) == f"{rec}._asdict()"
         ctx.check(ok, "R16.4", "rewrite:values", "values are not taken from ChainMap(new variables, record._asdict())", u, "ChainMap(local_dict, record._asdict())")
     first = rw.body[0]
+    from ..logic import equivalent, parse
+
     ident = isinstance(first, ast.If) and isinstance(first.body[-1], ast.Return) and norm(first.body[-1].value) == rec and \
-        norm(first.test) in ("not self.fields and (not self.exclude) and (not self.expression)",)
+        equivalent(first.test, parse("not self.fields and not self.exclude and not self.expression"))
     ctx.check(ident, "R16.4", "rewrite:identity", "rewrite() is not the identity when no fields/exclude/expression are set", rw, "returns the record unchanged")
     rdf = ctx.anchor_func("flow.record.stream.RecordFieldRewriter.record_descriptor_for_fields")
     keyed = func_params(rdf)[1:]
